@@ -619,12 +619,34 @@ func ruleMemVisibility(c *Ctx, r *Reporter) {
 			continue
 		}
 		ok := false
+		// the guarded store may sit in the method itself or in a helper of the same type that receives the sequence number
+		type body struct {
+			fn  *ssa.Function
+			seq *ssa.Parameter
+		}
+		bodies := []body{{fn, fn.Params[len(fn.Params)-1]}}
 		AllInstrs(fn, false, func(_ *ssa.Function, ins ssa.Instruction) {
+			call, isCall := ins.(*ssa.Call)
+			if !isCall {
+				return
+			}
+			g := call.Call.StaticCallee()
+			if g == nil || recvTypeName(g) != recvTypeName(fn) || len(g.Blocks) == 0 {
+				return
+			}
+			for i, a := range call.Call.Args {
+				if a == ssa.Value(fn.Params[len(fn.Params)-1]) && i < len(g.Params) {
+					bodies = append(bodies, body{g, g.Params[i]})
+				}
+			}
+		})
+		for _, bd := range bodies {
+		seqParam := bd.seq
+		AllInstrs(bd.fn, false, func(_ *ssa.Function, ins ssa.Instruction) {
 			name, addr, cc := atomicCall(ins)
 			if name != "Store" || fieldVarOf(addr) != nsf {
 				return
 			}
-			seqParam := fn.Params[len(fn.Params)-1]
 			bo, isB := cc.Args[1].(*ssa.BinOp)
 			if !isB || bo.Op != token.ADD || bo.X != ssa.Value(seqParam) {
 				return
@@ -653,6 +675,7 @@ func ruleMemVisibility(c *Ctx, r *Reporter) {
 				ok = true
 			}
 		})
+		}
 		r.Check(ok, "memtable.MemTable."+mn+":nextSeqNum", c.FnPos(fn), "nextSeqNum = seq+1 under seq > current", "the snapshot bound nextSeqNum is not maintained as a guarded maximum (+1)")
 	}
 }
